@@ -31,6 +31,7 @@ type Config struct {
 	Trace        bool
 	IntMode      bool
 	MaxWitness   int
+	MaxWallS     int
 }
 
 type Engine struct {
@@ -403,6 +404,18 @@ func (e *Engine) Run() {
 	e.encoded = map[string]int{}
 	e.intrinsic = map[string]bool{}
 	e.queue = [][]int{{}}
+	if e.cfg.MaxWallS > 0 {
+		timer := time.AfterFunc(time.Duration(e.cfg.MaxWallS)*time.Second, func() {
+			e.mu.Lock()
+			if !e.stopped {
+				e.stopped = true
+				e.res.Inconclusive = append(e.res.Inconclusive, fmt.Sprintf("unwind: wall-time budget %ds exceeded (paths so far %d, queue %d)", e.cfg.MaxWallS, e.res.Paths, len(e.queue)))
+			}
+			e.mu.Unlock()
+			e.cond.Broadcast()
+		})
+		defer timer.Stop()
+	}
 	var wg sync.WaitGroup
 	for i := 0; i < e.cfg.Workers; i++ {
 		wg.Add(1)
